@@ -113,10 +113,16 @@ func (c *VirtualTable) BestIndex(input *sqlite.IndexInfoInput) (*sqlite.IndexInf
 		return nil, toSqlite(err)
 	}
 	used := make([]*sqlite.ConstraintUsage, len(indexIn))
+	// SQLite wants the arguments of xFilter numbered 1..n without gaps, in
+	// the order Filter reads them (the order of the used constraints), not
+	// by constraint position: "WHERE a = ? AND k > ?" has its only used
+	// constraint at position 1.
+	argv := 0
 	for i := range indexOut.Used {
 		if indexOut.Used[i] {
+			argv++
 			used[i] = &sqlite.ConstraintUsage{
-				ArgvIndex: i + 1,
+				ArgvIndex: argv,
 				//Omit: true, // no known cases where this doesn't work, but...
 			}
 		}
